@@ -151,8 +151,8 @@ impl PushParser {
                 continue;
             }
             if ")" == token {
-                // End of (sub) list
-                depth -= 1;
+                // End of (sub) list; a closing parenthesis without an open list is ignored
+                depth = depth.saturating_sub(1);
                 continue;
             }
 
